@@ -2,7 +2,7 @@
 import codec
 import codeccheck
 
-LEAN_MODULES = ["PyAirtouch.Props.C03"]
+LEAN_MODULES = ["PyAirtouch.Props.C03", "PyAirtouch.Props.C03Frame"]
 LEVEL = "proof"
 
 
@@ -21,8 +21,13 @@ def run(ctx, deep=False):
     for mod in codec.MODULES:
         mod.load()
         codeccheck.run_module(ctx, mod, n, prop="C03", pairs=thorough)
+    import frame_try
+    total = 0
+    for gen in (4, 5):
+        total += frame_try.run_gen(ctx, gen, 800 if thorough else 100)
+    ctx.count("whole-frames", total)
     ctx.assumptions += ["float arithmetic of the temperature conversions is bridged by the exhaustive comparison over all raw values, not proved",
-                        "whole-frame path (header factory, wrappers, CRC, receive path) is covered by the frame differential"]
+                        "whole-frame path (header factory, wrappers, CRC, receive path) is covered by the frame differential (frame_try: real send path and real _read_one_message against the model's frameOf / parse; whole-frame round trip judged for well-formed messages)"]
 
 
 def search(ctx):
